@@ -964,6 +964,8 @@ class Context:
                 # Execute the expression to get the function object
                 vm = VM(self.memory_limit, self.time_limit)
                 vm.globals = self._globals
+                if self._current_vm is not None:
+                    vm.share_budget(self._current_vm)
                 result = vm.run(bytecode_module)
 
                 if isinstance(result, JSFunction):
@@ -971,6 +973,9 @@ class Context:
                 else:
                     # Fallback: return a simple empty function
                     return JSFunction("anonymous", params, bytes(), {})
+            except (TimeLimitError, MemoryLimitError):
+                # Limits stop the whole evaluation; they are never turned into script errors
+                raise
             except Exception as e:
                 from .errors import JSError
 
@@ -1103,7 +1108,20 @@ class Context:
 
                 vm = VM(ctx.memory_limit, ctx.time_limit)
                 vm.globals = ctx._globals
-                return vm.run(bytecode_module)
+                # The nested evaluation spends the budget of the evaluation that called it
+                parent = ctx._current_vm
+                if parent is not None:
+                    vm.share_budget(parent)
+                ctx._current_vm = vm
+                try:
+                    return vm.run(bytecode_module)
+                finally:
+                    ctx._current_vm = parent
+                    if parent is not None:
+                        parent.instruction_count = vm.instruction_count
+            except (TimeLimitError, MemoryLimitError):
+                # Limits stop the whole evaluation; they are never turned into script errors
+                raise
             except Exception as e:
                 from .errors import JSError
 
